@@ -1,5 +1,5 @@
 (* C01, history level, part 9: every step of a fault-free, crash-free history of
-   cookie-following clients without GetAndDelete preserves the jar invariant and
+   cookie-following clients (any scripts) preserves the jar invariant and
    is admissible for the ghost specification; the theorem. *)
 From Sessions Require Import Model.Base Model.Sess Model.Hist Model.Corr Proofs.SessDefs
   Proofs.WriteThrough Proofs.WriteThrough2 Proofs.WriteThrough3 Proofs.WriteThrough4 Proofs.WriteThrough5
